@@ -22,6 +22,29 @@ def Err.code : Err → String
 def readExact (n : Nat) (bs : Bytes) : Except Err (Bytes × Bytes) :=
   if n ≤ bs.length then .ok (bs.take n, bs.drop n) else .error .eof
 
+/-- Linear-time implementation of `readExact` (walks `n` cells instead of measuring the whole
+buffer); proved equal below and substituted by the compiler. -/
+def readExactFast (n : Nat) (bs : Bytes) : Except Err (Bytes × Bytes) :=
+  go n bs []
+where
+  go : Nat → Bytes → Bytes → Except Err (Bytes × Bytes)
+    | 0, r, acc => .ok (acc.reverse, r)
+    | _ + 1, [], _ => .error .eof
+    | k + 1, b :: r, acc => go k r (b :: acc)
+
+theorem readExactFast.go_eq : ∀ (n : Nat) (bs acc : Bytes),
+    readExactFast.go n bs acc =
+      if n ≤ bs.length then .ok (acc.reverse ++ bs.take n, bs.drop n) else .error .eof
+  | 0, bs, acc => by simp [readExactFast.go]
+  | k + 1, [], acc => by simp [readExactFast.go]
+  | k + 1, b :: r, acc => by
+    rw [readExactFast.go, readExactFast.go_eq k r (b :: acc)]
+    by_cases h : k ≤ r.length <;> simp [h]
+
+@[csimp] theorem readExact_eq_fast : @readExact = @readExactFast := by
+  funext n bs
+  simp [readExact, readExactFast, readExactFast.go_eq]
+
 def byteOf (n : Nat) : UInt8 := UInt8.ofNat (n % 256)
 
 /-- `(n as u32).to_le_bytes()` -/
